@@ -156,6 +156,7 @@ namespace
         int lv = 0, cv = 0;
         long tok = 0;
         bool ref = false;
+        bool twice = false; // the dispatcher object is kept and invoked a second time (stateful rvalue functor)
     };
 
     // family templates: feature sets closed under the extension chain
@@ -198,7 +199,8 @@ namespace
     Counter c_boots("sim", "boots"), c_detects("sim", "detect_calls"), c_dispatches("sim", "dispatch_calls"), c_fresh("sim", "construct_fresh_calls");
     Counter c_cpuid("sim", "cpuid_instructions"), c_xgetbv("sim", "xgetbv_instructions");
     Counter cl_onlyif("clause", "1_only_if(arch,boot)"), cl_mono("clause", "2_monotone_on_closed(child,parent,boot)"), cl_ud("clause", "3_no_xgetbv_ud(boot)"),
-        cl_stable("clause", "4_stable_within_boot(compare)"), cl_disp("clause", "5_dispatch_judged"), cl_disp_vac("clause", "5_dispatch_vacuous_none_available");
+        cl_stable("clause", "4_stable_within_boot(compare)"), cl_disp("clause", "5_dispatch_judged"), cl_disp_vac("clause", "5_dispatch_vacuous_none_available"),
+        cl_disp_twice("clause", "5_second_invocation_of_a_kept_dispatcher_judged");
     Counter p_closed("probe", "closed_configurations"), p_nonclosed("probe", "non_closed_configurations"), p_bits_no_state("probe", "arch_with_bits_but_os_state_disabled"),
         p_fall5("probe", "dispatch_fell_through_5_or_more"), p_last("probe", "dispatch_chose_last_member"), p_underreport("info", "bits_and_state_present_but_not_reported(permitted:the_property_says_only_if)"),
         p_reboot_changed("probe", "reboot_changed_report"), p_osx_off("probe", "boots_with_osxsave_off"), p_other_leaf("info", "detector_asked_leaf_outside_the_four(would_be_served_stable_junk)");
@@ -488,6 +490,7 @@ namespace
                     op.cv = (int)rng.range(-1000, 1000);
                     op.tok = (long)rng.range(0, 1000000);
                     op.ref = rng.coin();
+                    op.twice = !op.ref && rng.chance(1, 3);
                 }
                 else
                     op = gen_boot(rng, enabled_faults, unrelated_mode, raw_pct);
@@ -635,7 +638,14 @@ namespace
                     io.lv_in = op.lv;
                     io.cv_in = op.cv;
                     io.tok_in = op.tok;
-                    (op.ref ? le.ref : le.val)(io);
+                    DispIO io2;
+                    io2.lv_in = op.lv + 11;
+                    io2.cv_in = op.cv - 5;
+                    io2.tok_in = op.tok ^ 0x55;
+                    if (op.twice)
+                        le.twice(io, io2);
+                    else
+                        (op.ref ? le.ref : le.val)(io);
                     check_ud();
                     int expect = -1, depth = 0;
                     for (int i = 0; i < le.n; ++i)
@@ -672,6 +682,24 @@ namespace
                                                  io.cv_seen, op.tok, io.tok_seen, io.copies, io.moves));
                         if (io.ret_got != io.ret_expected || (op.ref && !io.ret_is_slot))
                             out.violate("C15/dispatch-return", sim::fmt("returned %ld, functor returned %ld, reference identity %d", io.ret_got, io.ret_expected, (int)io.ret_is_slot));
+                    }
+                    if (op.twice)
+                    {
+                        // second invocation of the same dispatcher object: again exactly once, same architecture, its own arguments and result
+                        ++cl_disp_twice;
+                        if (io2.calls != 1)
+                            out.violate("C15/dispatch-call-count", sim::fmt("second invocation of a kept dispatcher: functor invoked %d times (list #%u %s)", io2.calls, (unsigned)(op.list % lists.size()), ln));
+                        if (io2.calls >= 1 && io2.first_arch != expect)
+                            out.violate("C15/dispatch-wrong-arch", sim::fmt("second invocation of a kept dispatcher: functor received %s, expected %s", io2.first_arch >= 0 ? SPEC[io2.first_arch].name : "?",
+                                                                            SPEC[expect].name));
+                        if (io2.calls == 1)
+                        {
+                            if (io2.lv_seen != io2.lv_in || io2.cv_seen != io2.cv_in || io2.tok_seen != io2.tok_in || io2.lv_after != io2.lv_in * 3 + 1 || io2.copies != 0 || io2.moves != 1)
+                                out.violate("C15/dispatch-forwarding", sim::fmt("second invocation: arguments not forwarded: lv %d->%d (after %d), cv %d->%d, tok %ld->%ld, copies=%d moves=%d", io2.lv_in,
+                                                                                io2.lv_seen, io2.lv_after, io2.cv_in, io2.cv_seen, io2.tok_in, io2.tok_seen, io2.copies, io2.moves));
+                            if (io2.ret_got != io2.ret_expected)
+                                out.violate("C15/dispatch-return", sim::fmt("second invocation returned %ld, functor returned %ld", io2.ret_got, io2.ret_expected));
+                        }
                     }
                     break;
                 }
@@ -742,7 +770,7 @@ namespace
                     Value names = Value::array();
                     for (int i = 0; i < lists[li].n; ++i)
                         names.push(SPEC[lists[li].ids[i]].name);
-                    o.set("names", names).set("lv", op.lv).set("cv", op.cv).set("tok", op.tok).set("ret", op.ref ? "ref" : "value");
+                    o.set("names", names).set("lv", op.lv).set("cv", op.cv).set("tok", op.tok).set("ret", op.ref ? "ref" : op.twice ? "value,invoked_twice" : "value");
                 }
                 arr.push(o);
             }
@@ -796,6 +824,7 @@ namespace
                     op.cv = (int)o.at("cv").as_i64();
                     op.tok = (long)o.at("tok").as_i64();
                     op.ref = o.get_str("ret", "value") == "ref";
+                    op.twice = o.get_str("ret", "value") == "value,invoked_twice";
                 }
                 plan.push_back(op);
             }
@@ -898,6 +927,12 @@ namespace
                         q[i] = o2;
                         out.push_back(q);
                     };
+                    if (op.twice)
+                    {
+                        Op o2 = op;
+                        o2.twice = false;
+                        push_op(o2);
+                    }
                     if (op.lv != 1)
                     {
                         Op o2 = op;
